@@ -203,6 +203,46 @@ def seeded_variants(root: pathlib.Path, prop: str):
     return out
 
 
+# ----------------------------------------------------------------------------------------------- synthetic single-site edits
+# (property, name, expected, file, old text, new text).  Applied to the current file contents when `old` occurs exactly once
+# (otherwise skipped: the repository moved on and the variant no longer means what it says).  They keep rules whose expected
+# count of findings is zero honest: a rule that never fires must fire on these.
+SYNTHETIC = [
+    ("C20", "synthetic:unbound-name", "breaking", "nix_manipulator/expressions/trivia.py",
+     "        return rendered[:-1]\n    return rendered\n", "        return renderd[:-1]\n    return rendered\n"),
+    ("C20", "synthetic:unknown-self-attribute", "breaking", "nix_manipulator/expressions/binding.py",
+     "layout_from_gap(self.value_gap)", "layout_from_gap(self.value_gapp)"),
+    ("C20", "synthetic:bad-keyword", "breaking", "nix_manipulator/expressions/let.py",
+     "        after_str = format_trivia(self.after, indent=indent)", "        after_str = format_trivia(self.after, indnt=indent)"),
+    ("C08", "synthetic:bad-keyword-in-edit", "breaking", "nix_manipulator/cli/manipulations.py",
+     "binding = Binding(name=seg, value=nested_set, nested=True)", "binding = Binding(name=seg, value=nested_set, nestd=True)"),
+    ("C15", "synthetic:memoised-but-never-written", "neutral", "nix_manipulator/expressions/trivia.py",
+     "def layout_from_gap(gap: str) -> Layout:", "@functools.lru_cache(maxsize=64)\ndef layout_from_gap(gap: str) -> Layout:"),
+    ("C04", "synthetic:memoised-but-never-written", "neutral", "nix_manipulator/expressions/trivia.py",
+     "def layout_from_gap(gap: str) -> Layout:", "@functools.lru_cache(maxsize=64)\ndef layout_from_gap(gap: str) -> Layout:"),
+]
+
+
+def synthetic_variants(root: pathlib.Path, prop: str):
+    out = []
+    for p_, name, kind, rel, old, new in SYNTHETIC:
+        if p_ != prop:
+            continue
+        src = (root / rel).read_text()
+        if src.count(old) != 1:
+            continue
+        txt = src.replace(old, new)
+        if "functools." in new and "import functools" not in txt:
+            txt = txt.replace("from __future__ import annotations\n", "from __future__ import annotations\n\nimport functools\n", 1) \
+                if "from __future__ import annotations" in txt else "import functools\n" + txt
+        try:
+            ast.parse(txt)
+        except SyntaxError:
+            continue
+        out.append((name, kind, {rel: txt}))
+    return out
+
+
 # ----------------------------------------------------------------------------------------------- evaluation
 def _finding_keys(prop: str, root: str, overlay: dict):
     from sa.check import analyse
@@ -228,6 +268,9 @@ def run(prop: str, seed: int) -> dict:
     base = _finding_keys(prop, str(root), {})
     neutral = neutral_variants(root)
     breaking = seeded_variants(root, prop)
+    synth = synthetic_variants(root, prop)
+    neutral += [(n, ov) for n, k, ov in synth if k == "neutral"]
+    breaking += [(n, ov) for n, k, ov in synth if k == "breaking"]
     rnd = random.Random(seed)
     rnd.shuffle(neutral)
     jobs = [(prop, str(root), n, ov) for n, ov in neutral] + [(prop, str(root), n, ov) for n, ov in breaking]
